@@ -160,7 +160,7 @@ theorem C11_block_operands (prog : List Ins) (e : Avm.Env) (blockIns : List Ins)
     ∃ valOf : Nat × Nat → Avm.Val, ∀ j, j < k →
       List.Forall₂ (OperandValues.Agree valOf) ((constructAst blockIns).argsOf j)
         ((st j).stack.drop ((st j).stack.length - (blockIns[j]!).op.pops)) := by
-  obtain ⟨valOf, _, hargs⟩ := OperandValues.block_operands prog e blockIns pc0 st k hrun
+  obtain ⟨valOf, _, hargs, _⟩ := OperandValues.block_operands prog e blockIns pc0 st k hrun
   refine ⟨valOf, ?_⟩
   intro j hj
   have hjl : j < blockIns.length := by have := hrun.len; omega
